@@ -471,6 +471,9 @@ package varlink
 //@   modifies s.protocol, s.address, s.listener, s.running, s.conncounter, held, closed, wgAdds, wgWaited, gDlOk, gSetDl, gAccErr, gAccTimeout, gRunSeen, gCntSeen, gCntDelta, gAccDelta, gSpawned, gAdds, gBound, gBindRun, gRemoved, gAct, gPidOk, gNfds, gNfdsOk, gNamesSet, gNames, gFd, gFdCalled, gFLErr
 //@   ghostset at entry : gBound = nil
 //@   ghostset at entry : gSpawned = 0
+//@   ghostset at entry : gCntSeen = 1
+//@   ghostset at call(Accept)#1 : gCntSeen = 0
+//@   loop 1 invariant [expiry C15] gAccErr != nil && isTimeoutErr(gAccErr) ==> gCntSeen != 0
 //@   ghostset at go#1 : gSpawned = gSpawned + 1
 //@   loop 1 invariant [balance C14] wgAdds[addr_wg] == gSpawned && gCntDelta[s] == old(gCntDelta)[s] + gSpawned
 //@   ghostset at entry : gAccErr = nil
@@ -500,6 +503,9 @@ package varlink
 //@   modifies s.protocol, s.address, s.listener, s.running, s.conncounter, held, closed, wgAdds, wgWaited, gDlOk, gSetDl, gAccErr, gAccTimeout, gRunSeen, gCntSeen, gCntDelta, gAccDelta, gSpawned, gAdds, gBound
 //@   ghostset at entry : gBound = nil
 //@   ghostset at entry : gSpawned = 0
+//@   ghostset at entry : gCntSeen = 1
+//@   ghostset at call(Accept)#1 : gCntSeen = 0
+//@   loop 1 invariant [expiry C15] gAccErr != nil && isTimeoutErr(gAccErr) ==> gCntSeen != 0
 //@   ghostset at go#1 : gSpawned = gSpawned + 1
 //@   loop 1 invariant [balance C14] wgAdds[addr_wg] == gSpawned && gCntDelta[s] == old(gCntDelta)[s] + gSpawned
 //@   ghostset at entry : gAccErr = nil
